@@ -94,6 +94,12 @@ where
         self.shared.mac.get_session()
     }
 
+    /// Read-only snapshot of the MAC state (verification harnesses only).
+    #[cfg(feature = "verif-hooks")]
+    pub fn verif_snapshot(&self) -> crate::verif::VerifSnapshot {
+        self.shared.mac.verif_snapshot()
+    }
+
     pub fn set_session(&mut self, s: mac::Session) {
         self.shared.mac.set_session(s)
     }
